@@ -24,7 +24,7 @@ import oracle
 from ser import Ids, Ser, Unsupported, Deser, parse_sexp, rat, bits_to_float
 
 LEAN_MODULE = "Optyx.Props.C03"
-EXTRA_MODULES = ["Optyx.Props.PinsC03", "Optyx.Props.BuildTie", "Optyx.Props.ClosurePathTie", "Optyx.Props.SymbolicJacTie", "Optyx.Props.CompileEntryTie"]   # transcription anchors (harness/source_pins.py)
+EXTRA_MODULES = ["Optyx.Props.PinsC03", "Optyx.Props.BuildTie", "Optyx.Props.ClosurePathTie", "Optyx.Props.SymbolicJacTie", "Optyx.Props.CompileEntryTie", "Optyx.Props.ScaledTie"]   # transcription anchors (harness/source_pins.py)
 THEOREMS = [
     "Optyx.Props.Closures.closureTables_agree",
     "Optyx.Props.Closures.sanitizeShape_agrees",
@@ -48,6 +48,9 @@ THEOREMS = [
     "Optyx.Props.SymbolicJacTie.computeHessian_eq",
     "Optyx.Props.CompileEntryTie.compileExpression_eq",
     "Optyx.Props.CompileEntryTie.param_run",
+    "Optyx.Props.ScaledTie.scaledEntry_eq",
+    "Optyx.Props.ScaledTie.scaledLoop_step",
+    "Optyx.Props.ScaledTie.scaledPattern_frame",
     "Optyx.Props.PinsC03.anchors",
     "Optyx.Props.C03.jacRow_sound_of_source_equations",
     "Optyx.Props.JacRowTie.jacRow_step",
